@@ -71,6 +71,16 @@ def no_delay_without_a_value(ctx, sc, entry):
 def work(ctx, tier):
     stats = {}
     rng = common.rng_for(ctx, "main")
+    # strategies that take time to answer (they consult a service): the delay is still the strategy's value capped at the remaining time the
+    # strategy was TOLD (C05's "the remaining time"); what the clock says afterwards is C02's business (KF5 family, section 8)
+    for k in range((300 if tier == "quick" else 6000) // ctx.nshards):
+        sc = gen.rand_scenario(rng, max_attempts=(2, 5), p_special=0.0, p_budget=0.2, p_handler=0.3, p_abort=0.0, ncalls=(1, 2), placements=False)
+        for c in sc["calls"]:
+            c["strat_dur"] = [rng.choice([0.0, gen.G, 0.25, 0.5, 2.0]) for _ in range(4)]
+            c["strat_values"] = [rng.choice([0.25, 0.5, 1.0, 3.0, 1e9, sc["cfg"]["deadline_s"]]) for _ in c["strat_values"]]
+        for e in common.pick_entries(rng, rig.ENTRIES, 3):
+            _one(ctx, sc, e, stats)
+        ctx.inc("slow_strategy_scenarios")
     for k in range((400 if tier == "quick" else 8000) // ctx.nshards):
         sc = gen.rand_scenario(rng, max_attempts=(3, 6), p_special=0.0, p_budget=0.2, p_handler=0.3, p_abort=0.0, ncalls=(1, 2), placements=False)
         sc["fault"] = {"kind": "cb", "cb": "strategy", "at": rng.choice([0, 0, 1, 2]), "exc": rng.choice(gen.CB_EXCS)}
@@ -160,6 +170,8 @@ def replay(data):
     if "tspec" in data["payload"]:
         return tconc.replay(data["payload"])
     sc = data["payload"].get("scenario")
+    if data.get("key") == "delay-without-a-strategy-value":
+        return common.replay_with(data, no_delay_without_a_value)
     if data.get("key") == "wrong-attempt-number":
         import collections
 
